@@ -332,6 +332,7 @@ func (c *client) reconnect() error {
 		close(w.ch)
 	}
 	c.recvs = make(map[uint32]*waiter)
+	verifhook.Point("reconnect:failall")
 	c.recvsMu.Unlock()
 
 	dialer, _ := GetDialer(c.addr.Scheme)
